@@ -30,12 +30,13 @@ import (
 
 // engcOpts selects the sub-domain of worlds a check wants. The zero value is the general-purpose default.
 type engcOpts struct {
-	Proto    protocol.ConsensusVersion // "" = drawn among ConsensusFuture (mostly) and ConsensusCurrentVersion
-	Profile  string                    // transaction mix: "" (general), "pay" (payments/closes only), "status" (keyreg/close heavy)
-	Shadow   bool                      // maintain a second ledger fed the same blocks (via AddBlock) under its own schedule
-	ForceMem bool                      // never use on-disk sqlite
-	MaxGroupsPerBlock int              // 0 = default 8
-	Label    func(string)              // label sink (vk.Label); may be nil
+	Proto             protocol.ConsensusVersion            // "" = drawn among ConsensusFuture (mostly) and ConsensusCurrentVersion
+	Profile           string                               // transaction mix: "" (general), "pay" (payments/closes only), "status" (keyreg/close heavy)
+	Shadow            bool                                 // maintain a second ledger fed the same blocks (via AddBlock) under its own schedule
+	ForceMem          bool                                 // never use on-disk sqlite
+	MaxGroupsPerBlock int                                  // 0 = default 8
+	CfgHook           func(name string, cfg *config.Local) // optional: adjust the drawn node configuration before the ledger is opened
+	Label             func(string)                         // label sink (vk.Label); may be nil
 }
 
 // engcNode is one ledger instance with its own configuration and flush schedule.
@@ -61,9 +62,9 @@ type engcGroupResult struct {
 // engcBlockInfo is handed to the OnValidated / OnBlock hooks.
 type engcBlockInfo struct {
 	Round    basics.Round
-	Block    bookkeeping.Block          // the final block (with proposer and seed)
-	GenDelta ledgercore.StateDelta      // delta produced in generate mode (before the proposer is known)
-	Delta    ledgercore.StateDelta      // delta produced by Ledger.Validate on the pre-block state
+	Block    bookkeeping.Block     // the final block (with proposer and seed)
+	GenDelta ledgercore.StateDelta // delta produced in generate mode (before the proposer is known)
+	Delta    ledgercore.StateDelta // delta produced by Ledger.Validate on the pre-block state
 	Proposer basics.Address
 	Eligible bool
 	Groups   []engcGroupResult
@@ -101,12 +102,6 @@ type engcWorld struct {
 	Accepted, Rejected int
 }
 
-type engcTB interface {
-	Helper()
-	Fatalf(format string, args ...any)
-	Logf(format string, args ...any)
-}
-
 var engcWorldSeq atomic.Uint64
 var engcInitOnce sync.Once
 
@@ -133,8 +128,9 @@ func engcDrawCfg(t *rapid.T, name string) config.Local {
 	cfg.MaxAcctLookback = uint64(rapid.IntRange(1, 8).Draw(t, name+".MaxAcctLookback"))
 	cfg.Archival = rapid.Bool().Draw(t, name+".Archival")
 	// every open/reload with the LRU caches enabled allocates and clears ~60 MB (100000-entry buffers), 0.4 s on an idle
-	// machine and seconds on a loaded one: a third of the nodes have them, and those get a small reload budget
-	cfg.DisableLedgerLRUCache = rapid.IntRange(0, 2).Draw(t, name+".LRU") != 0
+	// machine and seconds on a loaded one: a quarter of the nodes have them, and those are never reloaded/reopened
+	// (ReloadBudgetLeft); a reload only empties the caches, which OpPruneCaches does too
+	cfg.DisableLedgerLRUCache = rapid.IntRange(0, 3).Draw(t, name+".LRU") != 0
 	// the verified-transaction cache is sized max(VerifiedTranscationsCacheSize, TxPoolSize) entries on every open
 	cfg.TxPoolSize = 100
 	cfg.VerifiedTranscationsCacheSize = 100
@@ -240,6 +236,9 @@ func engcNewWorld(tb testing.TB, t *rapid.T, opts engcOpts) *engcWorld {
 		n := &engcNode{Name: name, w: w, Cfg: engcDrawCfg(t, name)}
 		if forceNoLRU {
 			n.Cfg.DisableLedgerLRUCache = true
+		}
+		if opts.CfgHook != nil {
+			opts.CfgHook(name, &n.Cfg)
 		}
 		n.OnDisk = !opts.ForceMem && rapid.IntRange(0, 2).Draw(t, name+".onDisk") == 0
 		n.prefix = filepath.Join(dir, fmt.Sprintf("%s-%d", name, engcWorldSeq.Add(1)))
@@ -391,7 +390,7 @@ func (n *engcNode) OpSetParked(parked bool) {
 
 // ReloadBudgetLeft: with the LRU caches enabled every reload/reopen costs >= 0.4 s CPU; checks use this to cap them.
 func (n *engcNode) ReloadBudgetLeft() bool {
-	return n.Cfg.DisableLedgerLRUCache || n.Reloads+n.Reopens < 1
+	return n.Cfg.DisableLedgerLRUCache
 }
 
 // OpReload runs Ledger.reloadLedger() (trackers closed, re-initialised from the DB, blocks replayed).
@@ -436,10 +435,16 @@ func (n *engcNode) OpFlushCaches() {
 }
 
 // OpPruneCaches empties the three LRU caches (they are caches: answers must not change).
+// The pending-write queues are flushed first: dropping cache entries while older copies of them still sit in the
+// pending queue is not a state the ledger can reach by itself (prune only evicts the least recently used entries
+// beyond 100000+ and a just-committed entry is the most recently used one), and it does produce stale answers.
 func (n *engcNode) OpPruneCaches() {
 	n.Quiesce()
 	au := &n.L.accts
 	au.accountsMu.Lock()
+	au.baseAccounts.flushPendingWrites()
+	au.baseResources.flushPendingWrites()
+	au.baseKVs.flushPendingWrites()
 	au.baseAccounts.prune(0)
 	au.baseResources.prune(0)
 	au.baseKVs.prune(0)
@@ -449,3 +454,22 @@ func (n *engcNode) OpPruneCaches() {
 
 // engcCert is the (empty) certificate used for every block, as in upstream ledger tests.
 var engcCert = agreement.Certificate{}
+
+// engcRegisterProto clones the consensus parameters of base, lets f edit them and registers the result under name in
+// the global config.Consensus map for the duration of the test. SAFETY: config.Consensus is an unsynchronised global
+// read by ledger goroutines; call this from the Test function BEFORE rapid.Check / before any ledger exists, never
+// from inside a property. The entry is removed by tb.Cleanup, after every world has been closed.
+func engcRegisterProto(tb testing.TB, name, base protocol.ConsensusVersion, f func(*config.ConsensusParams)) protocol.ConsensusVersion {
+	p, ok := config.Consensus[base]
+	if !ok {
+		tb.Fatalf("engcRegisterProto: unknown base %v", base)
+	}
+	p.ApprovedUpgrades = map[protocol.ConsensusVersion]uint64{}
+	f(&p)
+	if _, exists := config.Consensus[name]; exists {
+		tb.Fatalf("engcRegisterProto: %v already registered", name)
+	}
+	config.Consensus[name] = p
+	tb.Cleanup(func() { delete(config.Consensus, name) })
+	return name
+}
